@@ -69,7 +69,7 @@ pub fn translate(repo: &Path, out: &mut Out) {
             mmethods: vec![],
             display: vec![],
         };
-        let mut g = String::from("From LV Require Import Base FS LayerShared ImpPrims ImpTypes.\nOpen Scope N_scope.\n\n");
+        let mut g = String::from("From LV Require Import Base Toml FS LayerShared ImpPrims ImpTypes.\nOpen Scope N_scope.\n\n");
         // const SBOM_FORMATS: &[SbomFormat] = &[..]
         let mut formats: Option<Vec<String>> = None;
         if let Some(file) = parse_file(&repo.join("libcnb-data/src/sbom.rs")) {
@@ -175,6 +175,34 @@ pub fn translate(repo: &Path, out: &mut Out) {
                 let _ = writeln!(g, "(* libcnb/src/layer/shared.rs: fn read_layer; the result is the layer directory and the parsed content metadata *)\nDefinition gen_read_layer {{A}} (parse : bytes -> option A) (layers_dir : path) (layer_name : bytes) : M (option (path * A)) :=\n{}.", crate::imp::indent(&term, 2));
             } else {
                 out.miss("shared.rs: fn read_layer");
+            }
+        }
+        // write_layer: the directory and the content-metadata document (its TOML encoding is a parameter)
+        let cfg4 = crate::imp::Config {
+            methods: vec![("as_ref", "{r}"), ("as_str", "{r}"), ("clone", "{r}"), ("join", "({r} ++ [{0}])")],
+            mutators: vec![],
+            state_calls: vec![],
+            calls: vec![],
+            variants: vec![],
+            eq: "beq",
+            take_default: "(@nil N)",
+            mcalls: vec![
+                ("fs::create_dir_all", "(create_dir_all (S (length {0})) {0})"),
+                ("write_toml_file", "(write_file {1} (Doc (enc {0})))"),
+            ],
+            mmethods: vec![],
+            display: vec![],
+        };
+        if let Some(file) = parse_file(&repo.join("libcnb/src/layer/shared.rs")) {
+            if let Some(f) = find_free_fn(&file, "write_layer") {
+                let mut tr = crate::imp::Tr::new(&cfg4);
+                let term = tr.mstmts(&f.block.stmts);
+                for m in &tr.missing {
+                    out.miss(format!("shared.rs: write_layer: {m}"));
+                }
+                let _ = writeln!(g, "(* libcnb/src/layer/shared.rs: fn write_layer; `enc` is the TOML encoding of the content metadata *)\nDefinition gen_write_layer {{T}} (enc : T -> tv) (layers_dir : path) (layer_name : bytes) (layer_content_metadata : T) : M unit :=\n{}.", crate::imp::indent(&term, 2));
+            } else {
+                out.miss("shared.rs: fn write_layer");
             }
         }
         out.coq("GenLayerSharedImp.v").push_str(&g);
